@@ -10,6 +10,7 @@ import (
 	"os"
 	"path/filepath"
 	"regexp"
+	"sort"
 	"strings"
 )
 
@@ -45,6 +46,46 @@ var c17Files = map[string]string{
 	"100%.txt":    "percent sign\n",
 	"q?mark.txt":  "question mark\n",
 	"h#ash.txt":   "hash\n",
+	// dot-directories and dot-files are ordinary content of a served directory (RFC 8615 /.well-known/ documents, …)
+	".well-known/security.txt":         "Contact: mailto:security@example.test\n",
+	".well-known/openid-configuration": `{"issuer":"https://files.example.test"}` + "\n",
+	".well-known/acme-challenge/tok_-1": "tok_-1.thumbprint\n",
+	".hidden.txt":                      "dot file at the top\n",
+	"sub/.dot/x.txt":                   "file below a dot directory\n",
+	"sub/.dot/.inner":                  "dot file below a dot directory\n",
+	"...dots/y.txt":                    "directory named with three dots\n",
+	"a..b.txt":                         "dots inside a name\n",
+	"sub/[x]{y}^z|.txt":                "brackets braces caret bar\n",
+	"sub/-dash_under.tar.gz":           "several dots\n",
+}
+
+// c17FileNames: the names of c17Files in a fixed order (map iteration order must not leak into the case list).
+func c17FileNames() []string {
+	out := make([]string, 0, len(c17Files))
+	for n := range c17Files {
+		out = append(out, n)
+	}
+	sort.Strings(out)
+	return out
+}
+
+// c17EscapeName renders a file name as a request path tail: strict (everything but unreserved octets and '/' is
+// percent-encoded) or lenient (only what cannot stand literally in a path segment: space, %, ?, #, [, ], {, }, ^, |, non-ASCII).
+func c17EscapeName(name string, strict bool) string {
+	var b strings.Builder
+	for i := 0; i < len(name); i++ {
+		ch := name[i]
+		lit := ch == '/' || c17IsUnreserved(ch)
+		if !strict && !lit {
+			lit = strings.IndexByte("!$&'()*+,;=:@", ch) >= 0
+		}
+		if lit {
+			b.WriteByte(ch)
+		} else {
+			fmt.Fprintf(&b, "%%%02X", ch)
+		}
+	}
+	return b.String()
 }
 
 func c17WriteFiles(w *vfWorld) string {
@@ -109,8 +150,9 @@ func c17Sets(w *vfWorld) []*c17Set {
 			Ups:   []*c17Up{c17HTTP("a", "/a/", "u1"), c17HTTP("ab", "/ab/", "u2"), c17HTTP("b-exact", "/b", "u3"), c17HTTP("a-b-exact", "/a/b", "u4"), c17HTTP("bc", "/b/c/", "u5")},
 			Bases: []string{"/a/", "/ab/", "/a", "/ab", "/b", "/b/", "/bx", "/a/b", "/a/b/", "/a/bx", "/b/c/", "/b/c", "/c/", "/", "/a%2Fb", "/%62", "/b%2Fc", "/b%2Fc%2F"}},
 		{Name: "legacy-static-file-nohost", Legacy: true, PassHost: false,
-			Ups:   []*c17Up{{ID: "static", Kind: "static", Path: "/", StaticCode: 202}, {ID: "files", Kind: "file", Path: "/files/", Dir: dir}, c17HTTP("a", "/a/", "u1")},
-			Bases: []string{"/", "/a/", "/files/", "/files", "/x/", "/a"}},
+			Ups:   []*c17Up{{ID: "static", Kind: "static", Path: "/", StaticCode: 202}, {ID: "files", Kind: "file", Path: "/files/", Dir: dir}, c17HTTP("a", "/a/", "u1"),
+				{ID: "wk", Kind: "file", Path: "/.well-known/", Dir: filepath.Join(dir, ".well-known"), FileRoot: ".well-known/"}},
+			Bases: []string{"/", "/a/", "/files/", "/files", "/x/", "/a", "/.well-known/", "/.well-known"}},
 		{Name: "legacy-scrambled-deep-nohost", Legacy: true, PassHost: false,
 			Ups:   []*c17Up{c17HTTP("abab", "/a/b/a/b/", "u4"), c17HTTP("root", "/", "u0"), c17HTTP("ab", "/a/b/", "u2"), c17HTTP("aba", "/a/b/a/", "u3"), c17HTTP("a", "/a/", "u1")},
 			Bases: []string{"/", "/a/", "/a/b/", "/a/b/a/", "/a/b/a/b/", "/a/b/a/b", "/a/b%2Fa%2Fb/"}},
@@ -138,8 +180,10 @@ func c17Sets(w *vfWorld) []*c17Set {
 		{Name: "alpha-mixed-inject",
 			Ups: []*c17Up{{ID: "docs", Kind: "file", Path: "^/docs/(.*)$", Rewrite: "/$1", Re: regexp.MustCompile("^/docs/(.*)$"), Dir: dir}, {ID: "files", Kind: "file", Path: "/files/", Dir: dir},
 				{ID: "ok", Kind: "static", Path: "/ok", StaticCode: 200}, {ID: "st", Kind: "static", Path: "/st/", StaticCode: 418},
-				nohost(c17HTTP("a", "/a/", "u1")), c17WithURIPath(c17HTTP("b", "/b/", "u2"), "/base"), c17RW("api", "^/api/(v[0-9]+)/(.*)$", "/$2?version=$1", "u3")},
-			Bases:    []string{"/docs/", "/files/", "/ok", "/ok/", "/st/", "/st", "/a/", "/b/", "/api/v1/", "/api/v22/", "/api/vx/", "/", "/a"},
+				nohost(c17HTTP("a", "/a/", "u1")), c17WithURIPath(c17HTTP("b", "/b/", "u2"), "/base"), c17RW("api", "^/api/(v[0-9]+)/(.*)$", "/$2?version=$1", "u3"),
+				{ID: "dotsub", Kind: "file", Path: "/.d/", Dir: filepath.Join(dir, "sub", ".dot"), FileRoot: "sub/.dot/"},
+				{ID: "wkrw", Kind: "file", Path: "^/\\.wk/v[0-9]/(.*)$", Rewrite: "/.well-known/$1", Re: regexp.MustCompile("^/\\.wk/v[0-9]/(.*)$"), Dir: dir}},
+			Bases:    []string{"/docs/", "/files/", "/ok", "/ok/", "/st/", "/st", "/a/", "/b/", "/api/v1/", "/api/v22/", "/api/vx/", "/", "/a", "/.d/", "/.wk/v1/"},
 			Injected: []string{"X-Custom-User", "X-Custom-Email"},
 			ExtraYML: "injectRequestHeaders:\n- name: X-Custom-User\n  values:\n  - claim: user\n- name: X-Custom-Email\n  values:\n  - claim: email\n"},
 	}
